@@ -84,6 +84,31 @@ def sign_handlers(ctx, prog):
         if k not in seen:
             ctx.missing(R, "writer of num_on_update_handlers: " + k)
     ctx.floor(R, len(effs), 5)
+    # handlers of an observer that is not linked yet (Created) are counted in bulk by add_to_observed_node: subscribe /
+    # unsubscribe may touch the node's counter only in the InUse state
+    from .expr import expr
+    from . import dtab
+    OS = "incremental::internal_observer::ObserverState"
+    for a, sign in effs:
+        F = a.fn
+        if not (F.path.endswith("ErasedObserver>::unsubscribe") or F.path.endswith("InternalObserver::<T>::subscribe")):
+            continue
+        du = DefUse(F)
+        c = F.cfg()
+        states = None
+        for s_, can in c.controlling_switches(a.bb):
+            e = expr(F, F.blocks[s_]["term"]["on"], du)
+            if e[0] == "discr" and dtab.is_field_get("state")(e[1]):
+                vals = {prog.variant_by_discr(OS, v) for x in can for v in c.edge_values(s_, x) if v != "otherwise"}
+                states = vals if states is None else (states & vals)
+        inst = "inuse-only:" + F.name
+        if states == {"InUse"}:
+            ctx.ok(R, inst)
+        else:
+            ctx.fail(R, inst, "%s changes the node's handler count in observer states %s; only InUse observers are counted "
+                     "on the node (a Created observer's handlers are added in bulk when it is linked), so the count drifts "
+                     "and Changed notifications stop being queued" % (F.name, sorted(states) if states else "any"), fn=F,
+                     span=a.span)
 
 
 HEAP_TABLE = {
@@ -397,9 +422,51 @@ def dom_invalidate(ctx, prog):
                      span=a.span)
 
 
+def dom_bracket(ctx, prog, R="C11.DOM-bracket"):
+    ctx.rule(R, "change_child_bind_rhs: the old rhs is unlinked first, then kept force_necessary exactly while the new "
+                "rhs is linked (set(true) .. state_add_parent(new) .. set(false)), then check_if_unnecessary(old)")
+    F = ctx.need_fn(R, q.NODE_IMPL + "change_child_bind_rhs")
+    if F is None:
+        return
+    from .expr import expr
+    du = DefUse(F)
+    c = F.cfg()
+    sets = [a for a in writes_of(prog, "incremental::node::Node.force_necessary") if a.fn.path == F.path and a.kind == "set"]
+    on = [a for a in sets if q.op_const(a.site.args[1]) and q.op_const(a.site.args[1]).get("int") == 1]
+    off = [a for a in sets if q.op_const(a.site.args[1]) and q.op_const(a.site.args[1]).get("int") == 0]
+    rem = q.calls_in(F, "ErasedNode>::remove_parent")
+    chk = q.calls_in(F, "ErasedNode>::check_if_unnecessary")
+    ctx.site(R, F, "force_necessary on %s off %s; remove_parent %s; check_if_unnecessary %s" % (
+        [a.bb for a in on], [a.bb for a in off], [t.bb for t in rem], [t.bb for t in chk]))
+    if len(on) != 1 or len(off) != 1 or len(rem) != 1 or len(chk) != 1:
+        ctx.fail(R, "shape", "expected one force_necessary on/off pair, one remove_parent and one check_if_unnecessary", fn=F,
+                 kind="anchor")
+        return
+    # the state_add_parent that lies in the Some(old_child) arm
+    adds = [t for t in q.calls_in(F, "ErasedNode>::state_add_parent") if t.bb in c.reach({rem[0].bb})]
+    if len(adds) != 1:
+        ctx.fail(R, "shape", "expected one state_add_parent after remove_parent", fn=F, kind="anchor")
+        return
+    a = adds[0]
+    order = [rem[0].bb, on[0].bb, a.bb, off[0].bb, chk[0].bb]
+    good = all(c.dominates(order[i], order[i + 1]) and order[i] != order[i + 1] for i in range(len(order) - 1))
+    # every site acts on the old child (arg2), the link on the new child (arg3)
+    objs_ok = all(expr(F, t.args[0], du) != ("arg", 3) for t in (rem[0], chk[0])) and expr(F, a.args[0], du) == ("arg", 3)
+    for wsite in (on[0], off[0]):
+        e = expr(F, wsite.site.args[0], du)
+        objs_ok = objs_ok and e[0] == "call" and e[1].endswith("force_necessary") and e[2][0] != ("arg", 3)
+    if good and objs_ok:
+        ctx.ok(R, "bracket")
+    else:
+        ctx.fail(R, "bracket", "the force_necessary bracket does not enclose the linking of the new rhs (order of blocks %s): "
+                 "when the new rhs depends on the old one, the old rhs looks unnecessary while it is re-linked and "
+                 "became_necessary runs on it a second time (duplicate edges, necessary counter drifts)" % order, fn=F,
+                 span=a.span)
+
+
 for _f, _id in ((sign_handlers, "C11.SIGN-handlers"), (sign_heaps, "C11.SIGN-heaps"),
                 (wmw_markers, "C11.WMW-markers"), (guard_stats, "C11.GUARD-stats"),
-                (dom_invalidate, "C11.DOM-invalidate")):
+                (dom_invalidate, "C11.DOM-invalidate"), (dom_bracket, "C11.DOM-bracket")):
     _f.rule_id = _id
 
-RULES = [sign_handlers, sign_heaps, wmw_markers, guard_stats, dom_invalidate]
+RULES = [sign_handlers, sign_heaps, wmw_markers, guard_stats, dom_invalidate, dom_bracket]
